@@ -362,6 +362,12 @@ fn run_random(ctx: &mut Ctx, rng: &mut Rng, _index: u64) {
         if rng.bool() {
             let at = rng.range(0, fields.len());
             fields.insert(at, Field { name: "Content-Length".into(), raw_value: b" 0".to_vec() });
+            // (agreeing copies are legal: each field line is reported, in its own spelling)
+            if rng.bool() && fields.len() < 98 {
+                let at = rng.range(0, fields.len());
+                fields.insert(at, Field { name: rng.pick(&["Content-Length", "content-length"]).to_string(), raw_value: rng.pick(&[&b" 0"[..], b" 00", b"0"]).to_vec() });
+                ctx.count("heads_with_repeated_content_length", 1);
+            }
         }
         ctx.count("representation_headers_cases", 1);
     }
